@@ -89,6 +89,10 @@ func (x *Exec) generate() {
 		v := x.freeVarValue(fv, st)
 		bindings = append(bindings, v)
 		x.params[fv.Name()] = v
+		if lv, ok := v.(LocV); ok && lv.Kind == "cell" {
+			// contracts name the captured variable itself (its value on entry), not its cell
+			x.params[fv.Name()] = st.Cells[lv.Cell]
+		}
 	}
 	x.Entry = st.Clone()
 	x.setupGhostEntry(st)
